@@ -257,7 +257,14 @@ class World:
                                 continue
                             return "DIRMOVE_ISOLATED"
         # (an object CREATED in this window counts at once: its first path stays behind as a ghost entry -- KF-43b)
-        stale = win.dirty_side[s] if self.stale_strict else (win.consumed[s] | win.created[s])
+        stale = win.dirty_side[s] if self.stale_strict else win.consumed[s]
+        if "STALE_PATHSTYLE" in H and self.path_style[s] and not self.stale_strict and vac and op in ("rename", "delete", "rmtree"):
+            # KF-43b: the object created in this window is ITSELF renamed away / deleted (or something leaves a folder
+            # created in this window); an ancestor folder being renamed with the new object inside is a different
+            # matter (DIRMOVE_ISOLATED and its narrowing decide that)
+            for c in win.created[s]:
+                if under(a[0], c):
+                    return "STALE_PATHSTYLE"
         if "STALE_PATHSTYLE" in H and self.path_style[s] and stale:
             # open finding KF-43: on a path-style side an object whose change the engine has already been told about
             # (its side's event loop ran) but has not synced yet must not leave its path before the next quiet point
